@@ -16,7 +16,8 @@ RULE = ("(a) Hypothesis programs (1-3 files, includes, local labels, address-ali
         "boundaries. (c) definition chains a_i = a_(i+1) op k_i of depth 300 (additive) and 30 (non-linear operators) and definition DAGs a_i = c*a_(i+1) +- a_j +- k (depth 4, 9, 25: several "
         "paths lead to one symbol) written in "
         "forward, reverse and drawn order and used from an immediate, an index, a branch distance, a .blkb count, a .repeat count, a "
-        "string <n> and a %<reg>; value also checked against the big-integer evaluator. Non-trivial: >= 1 definition moved across "
+        "string <n> and a %<reg>; value also checked against the big-integer evaluator; unused definitions, one of them faulty, in all 120 "
+        "orders of five statements (the build must fail with the same identifier in every order). Non-trivial: >= 1 definition moved across "
         ">= 1 of its uses (or a chain); distinct = distinct (original, variant) text pair.")
 ASSUMPTIONS = ["a definition is position independent when its expression contains neither '.' nor a local label",
                "diagnostics are compared by outcome class only"]
@@ -319,6 +320,17 @@ def run_shard(spec, ctx):
                                  sample=case if (depth, order, use, sd) in ((30, "random", "reg", 0), (300, "forward", "imm", 1)) else None)
                         for sig, msg in replay(case):
                             ctx.fail(sig, msg, case)
+        # definitions nothing refers to, one of them faulty: whatever the order, the build fails with the same identifier
+        import itertools
+        for fault, ident in (("ratio = total / count", "arithmetic-error"), ("ratio = total % count", "arithmetic-error"), ("ratio = 1 << (count - 1)", "arithmetic-error"),
+                             ("ratio = count + 19", "invalid-number"), ("ratio = total + nowhere", "undefined-symbol"), ("ratio = total + count", None)):
+            lines = [fault, "count = 0", "total = 5", "\tnop", "spare = ratio + 1"]
+            for perm in itertools.permutations(range(5)):
+                text = "\n".join(lines[i] for i in perm) + "\n"
+                case = oracle.expect_error(oracle.single(text), [ident]) if ident else oracle.expect_ok(oracle.single(text), b"\xa0\x00")
+                ctx.case(text, True, ["unused-definition-" + (ident or "fine")], sample=text if perm == (4, 0, 3, 1, 2) and ident == "arithmetic-error" and "/" in fault else None)
+                for sig, msg in oracle.check_expect(case, prefix="unused:"):
+                    ctx.fail(sig + ":" + (ident or "fine"), f"{text!r}: {msg}", case)
         return
     if part == "practice":
         names = sorted(os.listdir(PRACTICE))[spec["i"]::spec["n"]]
